@@ -1187,6 +1187,272 @@ Proof.
            end; cbn [t_cheld t_cnull x_v x_all forallb]; rewrite ?andb_true_r; reflexivity.
 Qed.
 
+(* ================================================================ c_alive from the requests *)
+(* Sufficient for c_alive: c exists at the start, no request is DELETE /allocations/c, and every entry for c in a request has
+   non-empty allocations with positive amounts.  The thread-local invariant: the thread has not created c and does not have it
+   on a clean-up list, is not DELETE /allocations/c, pairs its Consumer objects with the entries of its request, and every
+   allocation object it has for c has a positive amount. *)
+Definition pos_all (e : cons_in) : Prop := forall a y, In a (ci_allocs e) -> In y (ai_res a) -> 0 < snd y.
+Definition xok (x : actx) (c : Z) : Prop :=
+  forall e, In e (x_all x) -> pos_all e /\ (ci_uuid e = c -> ci_allocs e <> []).
+Definition objs_pos (objs : list areq) (c : Z) : Prop := forall o, In o objs -> q_cons o = c -> 0 < q_amt o.
+Definition items_ok (todo : list witem) (c : Z) : Prop :=
+  (forall k, In (WWipe k) todo -> co_uuid k <> c) /\ (forall k a y, In (WRp k a) todo -> In y (ai_res a) -> 0 < snd y).
+Definition t_kc (t : tstate) (c : Z) : Prop :=
+  match t with
+  | TRi x _ => xok x c
+  | TCons x todo acc =>
+      xok x c /\ (exists done, x_all x = done ++ todo /\ map co_uuid (rev acc) = map ci_uuid done) /\ ~ In c (created_uuids acc)
+  | TCreate x e todo acc | TReload x e todo acc =>
+      xok x c /\ (exists done, x_all x = done ++ e :: todo /\ map co_uuid (rev acc) = map ci_uuid done) /\ ~ In c (created_uuids acc)
+  | TObjs x ks todo objs => ~ In c (created_uuids ks) /\ items_ok todo c /\ objs_pos objs c
+  | TMain x ks objs => ~ In c (created_uuids ks) /\ objs_pos objs c
+  | TCleanup todo _ => ~ In c todo
+  | TDelRead c0 | TDelRows c0 _ | TDelCons c0 => c0 <> c
+  | _ => True
+  end.
+Definition a_kc (t : athread) (c : Z) : Prop :=
+  match t with
+  | ATree (TTOther t0) | ACached _ t0 | ACacheLoad t0 | ADelLoad t0 => t_kc t0 c
+  | ADelRead c0 => c0 <> c
+  | _ => True
+  end.
+Lemma anote_kc gt gp t c : a_kc (anote gt gp t) c <-> a_kc t c.
+Proof. destruct t; cbn; tauto. Qed.
+
+Lemma kc_cod us r c : t_kc (cleanup_or_done us r) c <-> ~ In c us.
+Proof. destruct us; cbn; tauto. Qed.
+Lemma created_rev_in l c : In c (created_uuids (rev l)) -> In c (created_uuids l).
+Proof.
+  unfold created_uuids. rewrite !in_map_iff. intros (k & E & Hk). exists k. split; [exact E|].
+  apply filter_In in Hk. apply filter_In. split; [apply in_rev; apply Hk|apply Hk].
+Qed.
+Lemma empty_created_sub : forall ks l k, In k (empty_created ks l) -> In k ks.
+Proof.
+  induction ks as [|k0 ks IH]; intros [|e l] k H; cbn [empty_created] in H; try destruct H.
+  destruct (ci_allocs e); [destruct H as [<-|H]; [left; reflexivity|right; eapply IH; exact H]|right; eapply IH; exact H].
+Qed.
+Lemma work_items_src : forall ks l, map co_uuid ks = map ci_uuid l ->
+  (forall k, In (WWipe k) (work_items ks l) -> exists e, In e l /\ ci_uuid e = co_uuid k /\ ci_allocs e = []) /\
+  (forall k a, In (WRp k a) (work_items ks l) -> exists e, In e l /\ In a (ci_allocs e)).
+Proof.
+  induction ks as [|k0 ks IH]; intros [|e0 l] Hm; cbn [map] in Hm; try discriminate; [split; intros ? []; intros []|].
+  injection Hm as Hu Hm. destruct (IH l Hm) as [I1 I2]. cbn [work_items]. destruct (ci_allocs e0) as [|al als] eqn:Ea; split.
+  - intros k [Hk|Hk]; [injection Hk as <-; exists e0; split; [left; reflexivity|auto]|].
+    destruct (I1 k Hk) as (e & He & H). exists e. split; [right; exact He|exact H].
+  - intros k a [Hk|Hk]; [discriminate|]. destruct (I2 k a Hk) as (e & He & H). exists e. split; [right; exact He|exact H].
+  - intros k Hk. apply in_app_or in Hk. destruct Hk as [Hk|Hk]; [apply in_map_iff in Hk; destruct Hk as (a & Ea' & _); discriminate|].
+    destruct (I1 k Hk) as (e & He & H). exists e. split; [right; exact He|exact H].
+  - intros k a Hk. apply in_app_or in Hk. destruct Hk as [Hk|Hk].
+    + apply in_map_iff in Hk. destruct Hk as (a' & Ea' & Ha'). injection Ea' as <- <-. exists e0. split; [left; reflexivity|rewrite Ea; exact Ha'].
+    + destruct (I2 k a Hk) as (e & He & H). exists e. split; [right; exact He|exact H].
+Qed.
+Lemma kc_after_cons x ks c : xok x c -> map co_uuid ks = map ci_uuid (x_all x) -> ~ In c (created_uuids ks) -> t_kc (after_cons x ks) c.
+Proof.
+  intros Hx Hm Hn. destruct (work_items_src ks (x_all x) Hm) as [W1 W2].
+  assert (Hi : items_ok (work_items ks (x_all x)) c).
+  { split.
+    - intros k Hk Ec. destruct (W1 k Hk) as (e & He & Eu & Ea). destruct (Hx e He) as [_ H]. apply H; [congruence|exact Ea].
+    - intros k a y Hk Hy. destruct (W2 k a Hk) as (e & He & Ha). destruct (Hx e He) as [H _]. exact (H a y Ha Hy). }
+  unfold after_cons. destruct (work_items ks (x_all x)) as [|w ws]; cbn [t_kc]; [split; [exact Hn|intros o []]|].
+  split; [exact Hn|]. split; [exact Hi|intros o []].
+Qed.
+Lemma pair_step x (done rest : list cons_in) e (acc : list cobj) k' :
+  x_all x = done ++ e :: rest -> map co_uuid (rev acc) = map ci_uuid done -> co_uuid k' = ci_uuid e ->
+  x_all x = (done ++ [e]) ++ rest /\ map co_uuid (rev (k' :: acc)) = map ci_uuid (done ++ [e]).
+Proof.
+  intros H1 H2 H3. split; [rewrite <- app_assoc; exact H1|]. cbn [rev]. rewrite !map_app, H2. cbn [map]. rewrite H3. reflexivity.
+Qed.
+
+Definition kc_ok (t' : tstate) (d' : db) (c : Z) : Prop := t_kc t' c /\ cgen_of d' c <> None.
+Lemma kco_same t' d d' c : t_kc t' c -> consumers d' = consumers d -> cgen_of d c <> None -> kc_ok t' d' c.
+Proof. intros H E Hn. split; [exact H|]. rewrite (csame_cons d d' c E). exact Hn. Qed.
+
+Lemma t_kc_step t d c : t_kc t c -> cgen_of d c <> None -> kc_ok (snd (tstep t d)) (fst (tstep t d)) c.
+Proof.
+  intros Hh Hc.
+  assert (Hfin : forall x (done : list cons_in) acc d1, xok x c -> x_all x = done ++ [] -> map co_uuid (rev acc) = map ci_uuid done ->
+            ~ In c (created_uuids acc) -> consumers d1 = consumers d -> kc_ok (after_cons x (rev acc)) d1 c).
+  { intros x done acc d1 Hx H1 H2 Hn E. apply kco_same with (d := d); [|exact E|exact Hc].
+    apply kc_after_cons; [exact Hx|rewrite H2, H1, app_nil_r; reflexivity|intro H; apply Hn, created_rev_in, H]. }
+  destruct t as [r|r|r g0|x todo|x todo acc|x e todo acc|x e todo acc|x ks todo objs|x ks objs|todo r|c0|c0 rows|c0];
+    cbn [t_kc] in Hh; cbn [tstep].
+  - apply kco_same with (d := d); [exact I|reflexivity|exact Hc].
+  - destruct (prov_target r) as [u0|]; [|apply kco_same with (d := d); [exact I|reflexivity|exact Hc]].
+    destruct (find_rp d u0) as [me|]; [|apply kco_same with (d := d); [exact I|reflexivity|exact Hc]].
+    destruct (prov_precheck r me d); apply kco_same with (d := d); try exact I; try reflexivity; exact Hc.
+  - destruct (prov_write r g0 d) as [d' rs] eqn:Ew. apply kco_same with (d := d); [exact I|eapply C06.prov_write_consumers; exact Ew|exact Hc].
+  - (* TRi *)
+    assert (Hnext : kc_ok (match x_all x with [] => after_cons x [] | c1 :: l1 => TCons x (c1 :: l1) [] end) d c).
+    { apply kco_same with (d := d); [|reflexivity|exact Hc]. destruct (x_all x) as [|e l] eqn:El.
+      - apply kc_after_cons; [exact Hh|rewrite El; reflexivity|intros []].
+      - cbn [t_kc]. split; [exact Hh|]. split; [exists []; rewrite El; split; reflexivity|intros []]. }
+    destruct todo as [|r rest]; cbn [fst snd]; [exact Hnext|].
+    destruct (find_rp d (ri_rp r)) as [me|]; [|apply kco_same with (d := d); [exact I|reflexivity|exact Hc]].
+    destruct (negb (ri_gen r =? rp_gen me)); cbn [fst snd]; [apply kco_same with (d := d); [exact I|reflexivity|exact Hc]|].
+    destruct rest as [|r2 rest2]; [exact Hnext|apply kco_same with (d := d); [exact Hh|reflexivity|exact Hc]].
+  - (* TCons *)
+    destruct Hh as (Hx & (done & H1 & H2) & Hn).
+    destruct todo as [|e rest]; cbn [fst snd]; [apply (Hfin x done acc d Hx H1 H2 Hn eq_refl)|]. cbv zeta.
+    destruct (rq_attrs (x_cf x) (x_v x) e) as [[pj us] ty]. pose proof (proj1 (proj2 (aux_names_rps (x_cf x) (x_v x) d e))) as Ea.
+    destruct (find_cons d (ci_uuid e)) as [k|] eqn:F.
+    + destruct (_ && _); cbn [fst snd]; [apply kco_same with (d := d); [apply kc_cod; exact Hn|exact Ea|exact Hc]|].
+      destruct (pair_step x done rest e acc (mkCobj (c_uuid k) (c_gen k) (c_proj k) (c_user k) (c_type k) false pj us ty) H1 H2 (fc_uuid _ _ _ F)) as [P1 P2].
+      destruct rest as [|e2 rest2]; [apply (Hfin x _ _ _ Hx P1 P2); [exact Hn|exact Ea]|].
+      apply kco_same with (d := d); [|exact Ea|exact Hc]. cbn [t_kc]. split; [exact Hx|]. split; [eauto|exact Hn].
+    + destruct (_ && _); cbn [fst snd]; [apply kco_same with (d := d); [apply kc_cod; exact Hn|exact Ea|exact Hc]|].
+      apply kco_same with (d := d); [|exact Ea|exact Hc]. cbn [t_kc]. split; [exact Hx|]. split; [eauto|exact Hn].
+  - (* TCreate *)
+    destruct Hh as (Hx & (done & H1 & H2) & Hn). destruct (rq_attrs (x_cf x) (x_v x) e) as [[pj us] ty].
+    destruct (find_cons d (ci_uuid e)) as [k|] eqn:F; cbn [fst snd].
+    { apply kco_same with (d := d); [|reflexivity|exact Hc]. cbn [t_kc]. split; [exact Hx|]. split; [eauto|exact Hn]. }
+    assert (Hcn : cgen_of d (ci_uuid e) = None) by (unfold cgen_of; rewrite F; reflexivity).
+    assert (Hne : ci_uuid e <> c) by (intro E0; apply Hc; rewrite <- E0; exact Hcn).
+    destruct (create_effect d (mkCons (ci_uuid e) pj us ty 0) c Hcn eq_refl) as [_ C2]. cbn [c_uuid] in C2.
+    assert (Hc' : cgen_of (set_consumers d (consumers d ++ [mkCons (ci_uuid e) pj us ty 0])) c <> None).
+    { rewrite (C2 ltac:(congruence)). exact Hc. }
+    assert (Hn' : ~ In c (created_uuids (mkCobj (ci_uuid e) 0 pj us ty true pj us ty :: acc))).
+    { intros [E|H]; [cbn in E; congruence|exact (Hn H)]. }
+    destruct (pair_step x done todo e acc (mkCobj (ci_uuid e) 0 pj us ty true pj us ty) H1 H2 eq_refl) as [P1 P2].
+    split; [|exact Hc'].
+    destruct todo as [|e2 rest2].
+    + apply kc_after_cons; [exact Hx|rewrite P2, P1, app_nil_r; reflexivity|intro H; apply Hn', created_rev_in, H].
+    + cbn [t_kc]. split; [exact Hx|]. split; [eauto|exact Hn'].
+  - (* TReload *)
+    destruct Hh as (Hx & (done & H1 & H2) & Hn). destruct (rq_attrs (x_cf x) (x_v x) e) as [[pj us] ty].
+    destruct (find_cons d (ci_uuid e)) as [k|] eqn:F; cbn [fst snd]; [|apply kco_same with (d := d); [apply kc_cod; exact Hn|reflexivity|exact Hc]].
+    destruct (28 <=? x_v x); cbn [fst snd]; [apply kco_same with (d := d); [apply kc_cod; exact Hn|reflexivity|exact Hc]|].
+    destruct (pair_step x done todo e acc (mkCobj (c_uuid k) (c_gen k) (c_proj k) (c_user k) (c_type k) false pj us ty) H1 H2 (fc_uuid _ _ _ F)) as [P1 P2].
+    destruct todo as [|e2 rest2]; [apply (Hfin x _ _ _ Hx P1 P2); [exact Hn|reflexivity]|].
+    apply kco_same with (d := d); [|reflexivity|exact Hc]. cbn [t_kc]. split; [exact Hx|]. split; [eauto|exact Hn].
+  - (* TObjs *)
+    destruct Hh as (Hn & (Hi1 & Hi2) & Ho).
+    destruct todo as [|w rest]; cbn [fst snd]; [apply kco_same with (d := d); [cbn [t_kc]; auto|reflexivity|exact Hc]|]. cbv zeta.
+    assert (Hrest : items_ok rest c) by (split; [intros k Hk; apply Hi1; right; exact Hk|intros k a y Hk; apply (Hi2 k a y); right; exact Hk]).
+    assert (Hnext : forall objs', objs_pos objs' c ->
+              kc_ok (match rest with [] => TMain x ks objs' | _ :: _ => TObjs x ks rest objs' end) d c).
+    { intros objs' H. apply kco_same with (d := d); [|reflexivity|exact Hc]. destruct rest; cbn [t_kc]; auto. }
+    destruct w as [k|k a].
+    + cbn [fst snd]. apply Hnext. intros o Hin Eo. apply in_app_or in Hin. destruct Hin as [Hin|Hin]; [exact (Ho o Hin Eo)|].
+      exfalso. apply in_map_iff in Hin. destruct Hin as (q & <- & Hq). apply C04.wipe_list_In in Hq. destruct Hq as [Eq _].
+      cbn [q_cons] in Eo. apply (Hi1 k); [left; reflexivity|congruence].
+    + destruct (find_rp d (ai_rp a)) as [rp0|]; cbn [fst snd]; [|apply kco_same with (d := d); [apply kc_cod; exact Hn|reflexivity|exact Hc]].
+      apply Hnext. intros o Hin Eo. apply in_app_or in Hin. destruct Hin as [Hin|Hin]; [exact (Ho o Hin Eo)|].
+      apply in_map_iff in Hin. destruct Hin as (y & <- & Hy). cbn [q_amt]. apply (Hi2 k a y); [left; reflexivity|exact Hy].
+  - (* TMain *)
+    destruct Hh as (Hn & Ho).
+    destruct (main_txn x ks objs d) as [d'|e0] eqn:Em; cbn [fst snd]; [|apply kco_same with (d := d); [apply kc_cod; exact Hn|reflexivity|exact Hc]].
+    split.
+    + apply kc_cod. intro Hin. apply Hn. unfold created_uuids in *. apply in_map_iff in Hin. destruct Hin as (k & E & Hk).
+      apply filter_In in Hk. apply in_map_iff. exists k. split; [exact E|]. apply filter_In. split; [eapply empty_created_sub; apply Hk|apply Hk].
+    + destruct (main_cons_exact _ _ _ _ _ Em) as (_ & X2 & X3).
+      destruct (in_dec Z.eq_dec c (map q_cons objs)) as [Hin|Hni]; [|rewrite (X2 c Hni); exact Hc].
+      apply in_map_iff in Hin. destruct Hin as (o & Eo & Hoo). rewrite <- Eo. apply (X3 o Hoo). apply (Ho o Hoo Eo).
+  - (* TCleanup *)
+    destruct todo as [|u rest]; cbn [fst snd]; [apply kco_same with (d := d); [exact I|reflexivity|exact Hc]|].
+    split; [destruct rest; cbn [t_kc]; [exact I|intro H; apply Hh; right; exact H]|].
+    rewrite (dcina_other d [u] c); [exact Hc|]. intros [E|[]]. apply Hh. left. exact E.
+  - destruct (wipe_list d c0); (apply kco_same with (d := d); [|reflexivity|exact Hc]); [exact I|exact Hh].
+  - split; [exact Hh|]. rewrite (csame_cons d _ c eq_refl). exact Hc.
+  - split; [exact I|]. rewrite (dcina_other d [c0] c); [exact Hc|]. intros [E|[]]. exact (Hh E).
+Qed.
+
+Lemma a_kc_step cf t d c : a_kc t c -> cgen_of d c <> None ->
+  a_kc (fst (astep cf t d)) c /\ cgen_of (snd (astep cf t d)) c <> None.
+Proof.
+  intros Hh Hc.
+  assert (Hs : forall t' d', a_kc t' c -> consumers d' = consumers d -> a_kc t' c /\ cgen_of d' c <> None).
+  { intros t' d' H E. split; [exact H|]. rewrite (csame_cons d d' c E). exact Hc. }
+  destruct t as [t0|snap t0|t0|c0|t0|u0 g ts|u0 ts g|u0 ts g lost|v u0 g l|v u0 l g gone|n|n|n|old new|id new|n|id|t1|t1|t1|t1 stale].
+  - destruct t0 as [r|v u0 name parent|v u0 name parent|v u0 name np g|u0|u0|t0]; cbn [astep ttstep].
+    + apply Hs; [exact I|reflexivity].
+    + pose proof (h_rp_create_cons d v u0 name parent) as H. destruct (h_rp_create d v u0 name parent) as [d' r]. apply Hs; [exact I|exact H].
+    + destruct (find_rp d u0) as [me|]; [|apply Hs; [exact I|reflexivity]]. destruct (_ && _); apply Hs; try exact I; reflexivity.
+    + destruct (find_rp d u0) as [me|]; [|apply Hs; [exact I|reflexivity]].
+      destruct (rp_update d me name np (37 <=? v)) as [d'|e] eqn:E; cbn [rp_update_answer];
+        [apply Hs; [exact I|eapply rp_update_cons; exact E]|destruct e; apply Hs; try exact I; reflexivity].
+    + destruct (find_rp d u0); apply Hs; try exact I; reflexivity.
+    + destruct (rp_delete d u0) as [d'|e] eqn:E; cbn [rp_delete_answer];
+        [apply Hs; [exact I|eapply rp_delete_cons; exact E]|destruct e; apply Hs; try exact I; reflexivity].
+    + cbn [a_kc] in Hh. pose proof (t_kc_step t0 d c Hh Hc) as H. destruct (tstep t0 d) as [d' t']. exact H.
+  - cbn [a_kc] in Hh.
+    destruct t0 as [r|r|r g|x todo|x todo acc|x e todo acc|x e todo acc|x ks todo objs|x ks objs|todo r|c1|c1 rows|c1];
+      try (rewrite acached_default by (intros; discriminate); cbn [fst snd a_kc];
+           match goal with |- context [tstep ?tt d] => exact (t_kc_step tt d c Hh Hc) end).
+    + destruct todo as [|[k|k a] rest];
+        try (rewrite acached_default by (intros; discriminate); cbn [fst snd a_kc];
+             match goal with |- context [tstep ?tt d] => exact (t_kc_step tt d c Hh Hc) end).
+      pose proof (t_kc_step (TObjs x ks (WWipe k :: rest) objs) d c Hh Hc) as H. cbn [astep].
+      destruct (tstep (TObjs x ks (WWipe k :: rest) objs) d) as [d' t']. destruct (cache_misses snap (wipe_list d (co_uuid k))); exact H.
+    + cbn [astep]. unfold main_txn_cached. pose proof (t_kc_step (TMain x ks objs) (set_rcs d (rcs d ++ stale_rows d snap)) c Hh Hc) as H.
+      cbn [tstep] in H. destruct (main_txn x ks objs (set_rcs d (rcs d ++ stale_rows d snap))) as [d'|e0]; cbn [fst snd a_kc] in *; exact H.
+  - cbn [astep fst snd]. apply Hs; [exact Hh|reflexivity].
+  - cbn [astep]. pose proof (t_kc_step (TDelRead c0) d c Hh Hc) as H. destruct (tstep (TDelRead c0) d) as [d' t']. cbn [fst snd] in *.
+    destruct (tdone t'); exact H.
+  - cbn [astep fst snd]. apply Hs; [exact Hh|reflexivity].
+  - cbn [astep]. destruct (find_rp d u0) as [me|]; [|apply Hs; [exact I|reflexivity]]. destruct (negb _); apply Hs; try exact I; reflexivity.
+  - cbn [astep]. destruct (negb _); apply Hs; try exact I; reflexivity.
+  - cbn [astep]. destruct (existsb _ ts); [apply Hs; [exact I|reflexivity]|]. unfold set_traits_chk. destruct (forallb _ _); [|apply Hs; [exact I|reflexivity]].
+    destruct (set_traits_c d u0 g ts) as [d'|e] eqn:E; [apply Hs; [exact I|eapply set_traits_c_cons; exact E]|destruct e; apply Hs; try exact I; reflexivity].
+  - cbn [astep]. destruct (find_rp d u0) as [me|]; [|apply Hs; [exact I|reflexivity]]. destruct (_ && _); apply Hs; try exact I; reflexivity.
+  - cbn [astep]. destruct (if gone then None else find_rp d u0); [|apply Hs; [exact I|reflexivity]].
+    destruct (set_aggregates_txn d u0 g (dedup l) (19 <=? v)) as [d'|e] eqn:E; [apply Hs; [exact I|eapply set_aggregates_txn_cons; exact E]|apply Hs; [exact I|reflexivity]].
+  - cbn [astep]. destruct (rc_create d n) as [d'|e] eqn:E; apply Hs; try exact I; [eapply rc_create_cons; exact E|reflexivity].
+  - cbn [astep]. destruct (rc_id_of_name d n); apply Hs; try exact I; reflexivity.
+  - cbn [astep]. destruct (rc_create d n) as [d'|e] eqn:E; apply Hs; try exact I; [eapply rc_create_cons; exact E|reflexivity].
+  - cbn [astep]. destruct (rc_id_of_name d old) as [id|]; [|apply Hs; [exact I|reflexivity]]. destruct (id <? MIN_CUSTOM_RC_ID); apply Hs; try exact I; reflexivity.
+  - cbn [astep]. destruct (negb _); [apply Hs; [exact I|reflexivity]|]. destruct (_ || _); apply Hs; try exact I; reflexivity.
+  - cbn [astep]. destruct (rc_id_of_name d n) as [id|]; [|apply Hs; [exact I|reflexivity]]. destruct (id <? MIN_CUSTOM_RC_ID); apply Hs; try exact I; reflexivity.
+  - cbn [astep]. destruct (existsb _ (invs d)); [apply Hs; [exact I|reflexivity]|]. destruct (negb _); apply Hs; try exact I; reflexivity.
+  - cbn [astep]. destruct (trait_exists d t1); apply Hs; try exact I; reflexivity.
+  - cbn [astep]. destruct (trait_create d t1) as [d'|e] eqn:E; apply Hs; try exact I; [eapply trait_create_cons; exact E|reflexivity].
+  - cbn [astep]. destruct (negb _); [apply Hs; [exact I|reflexivity]|]. destruct (is_std_trait t1); apply Hs; try exact I; reflexivity.
+  - cbn [astep]. destruct stale; [apply Hs; [exact I|reflexivity]|]. destruct (existsb _ (rp_traits d)); [apply Hs; [exact I|reflexivity]|].
+    destruct (negb _); apply Hs; try exact I; reflexivity.
+Qed.
+
+Lemma raw_kc cf c : forall ts i d, Forall (fun t => a_kc t c) ts -> cgen_of d c <> None ->
+  Forall (fun t => a_kc t c) (fst (a_step_raw cf i ts d)) /\ cgen_of (snd (a_step_raw cf i ts d)) c <> None.
+Proof.
+  induction ts as [|t ts IH]; intros i d Hf Hc; [destruct i; auto|]. inversion Hf as [|? ? H1 H2]. subst.
+  destruct i as [|i]; cbn [a_step_raw].
+  - pose proof (a_kc_step cf t d c H1 Hc) as [A B]. destruct (astep cf t d). split; [constructor; assumption|exact B].
+  - destruct (IH i d H2 Hc) as [A B]. destruct (a_step_raw cf i ts d). split; [constructor; assumption|exact B].
+Qed.
+Theorem c_alive_kc cf c : forall s ts d, Forall (fun t => a_kc t c) ts -> cgen_of d c <> None -> c_alive cf c s ts d.
+Proof.
+  induction s as [|i s IH]; intros ts d Hf Hc; cbn [c_alive]; [auto|]. split; [exact Hc|].
+  destruct (raw_kc cf c ts i d Hf Hc) as [A B]. unfold a_step_thread. destruct (a_step_raw cf i ts d) as [ts1 d1]. cbn [fst snd] in *.
+  apply IH; [|exact B]. apply Forall_forall. intros t Ht. apply in_map_iff in Ht. destruct Ht as (t0 & <- & Ht0). apply anote_kc.
+  rewrite Forall_forall in A. apply A. exact Ht0.
+Qed.
+
+(* the condition on the requests *)
+Definition keeps_consumer (c : Z) (r : req) : Prop :=
+  r <> AllocDelete c /\ forall e, In e (req_consumers r) -> ci_uuid e = c -> ci_allocs e <> [].
+Lemma ainit_kc cf c r : req_wf r = true -> keeps_consumer c r -> a_kc (ainit cf r) c.
+Proof.
+  intros Hwf [Hnd Hne]. destruct (C06.req_wf_consumers r Hwf) as [_ Hc].
+  assert (Hx : forall e, In e (req_consumers r) -> pos_all e /\ (ci_uuid e = c -> ci_allocs e <> [])).
+  { intros e He. split; [|apply Hne; exact He]. intros a y Ha Hy. pose proof (C06.cons_in_wf_amt e a y (Hc e He) Ha Hy). lia. }
+  destruct r; cbn [ainit ttinit tinit a_kc req_consumers] in *;
+    repeat match goal with |- context [if ?b then _ else _] => destruct b end; cbn [a_kc ADone t_kc x_all]; auto;
+    try (destruct (prov_target _); [destruct (prov_version_gate _)|]; cbn [a_kc t_kc]; exact I).
+  all: try (destruct (prov_version_gate _); exact I).
+  - split; [exact Hx|]. split; [exists []; split; reflexivity|intros []].
+  - split; [exact Hx|]. split; [exists []; split; reflexivity|intros []].
+  - intros ->. apply Hnd. reflexivity.
+Qed.
+
+(* c exists at the start, no request is DELETE /allocations/c, no entry for c has empty allocations: c exists throughout *)
+Theorem c06a_alive_from_requests : forall cf reqs s d c,
+  cgen_of d c <> None -> Forall (fun r => req_wf r = true /\ keeps_consumer c r) reqs ->
+  c_alive cf c s (map (ainit cf) reqs) d.
+Proof.
+  intros cf reqs s d c Hc Hf. apply c_alive_kc; [|exact Hc]. apply Forall_forall. intros t Ht.
+  apply in_map_iff in Ht. destruct Ht as (r & <- & Hr). rewrite Forall_forall in Hf. destruct (Hf r Hr) as [A B]. apply ainit_kc; assumption.
+Qed.
+
 (* ================================================================ examples (start state = the set-up of harness/conc_extra.py:
    consumers 2 and 3 exist at generation 1, consumer 5 does not exist) *)
 Definition cy_run (c : Z) (s : list nat) (reqs : list req) : list Z * option Z * option Z * list Z :=
@@ -1259,6 +1525,7 @@ Print Assumptions c06a_accounting.
 Print Assumptions c06a_accounting_segment.
 Print Assumptions c_step_effect.
 Print Assumptions cheld_table.
+Print Assumptions c06a_alive_from_requests.
 Print Assumptions c06a_commit_generation.
 Print Assumptions c06a_at_most_one.
 Print Assumptions c06a_null_at_most_one.
